@@ -712,4 +712,37 @@ def empty_patch(repo: Repo, prop: str = PROP, rule: str = "C12.EMPTY-PATCH") -> 
 
 empty_patch.rule_id = "C12.EMPTY-PATCH"
 
-RULES = [clear_complete, grade_idempotent, lockstep_filter, backport_map, delete_skip, assemble_walk, backport_owns_points, no_class_state, no_stale_lazy_cache, empty_patch]
+def neighbour_untouched(repo: Repo) -> RuleRun:
+    """'writing the same mesh a second time produces the same file': grading a block from its neighbour reads the neighbour's chops and leaves them as they are. Same rule as C04.ALIGNMENT-BRANCH."""
+    from ..report import rebrand
+    from . import c04
+
+    return rebrand(c04.alignment_branch(repo), PROP, "C12.NEIGHBOUR-UNTOUCHED")
+
+
+neighbour_untouched.rule_id = "C12.NEIGHBOUR-UNTOUCHED"
+
+
+def exact_moves(repo: Repo) -> RuleRun:
+    """'back-porting after moving vertices ... the re-assembled mesh has the moved positions' - however small the move is compared
+    with the coordinates: nothing in the model's round trip decides "unchanged" with a tolerance that grows with the magnitude of
+    the operands (np.isclose / np.allclose default to rtol = 1e-5: a vertex at x = 2000 nudged by 0.015 is 'unchanged')."""
+    from .. import tolerance
+
+    r = RuleRun(PROP, "C12.EXACT-MOVES", floor=5, what="no closeness test with a relative part (np.isclose / np.allclose defaults, scaled tolerances) in the mesh's assemble / backport / clear / write path")
+    mod = repo.module("mesh")
+    tol = tolerance.library_tol(repo)
+    for fn in sorted(repo.all_functions(), key=lambda f: f.qualname):
+        if fn.module is not mod:
+            continue
+        tests = tolerance.tests_in(repo, fn.module, fn.node)
+        if not tests:
+            r.ok(fn, f"{fn.name}: no closeness test", key=f"fn:{fn.name}")
+        for i, c in enumerate(tests):
+            tolerance._judge(r, fn, c, tol, i, True)
+    return r
+
+
+exact_moves.rule_id = "C12.EXACT-MOVES"
+
+RULES = [clear_complete, grade_idempotent, lockstep_filter, backport_map, delete_skip, assemble_walk, backport_owns_points, no_class_state, no_stale_lazy_cache, empty_patch, neighbour_untouched, exact_moves]
